@@ -97,7 +97,7 @@ def _inproc_chunk(args):
             fails.append({"kind": "after-solve", "text": progs[i], "what": "translation differs after solving runs in the same process"})
         m1 = oracles.impl_models(progs[i], 2)
         m2 = oracles.impl_models(progs[i], 2)
-        if m1 != m2:
+        if m1 != m2 and "Timeout" not in (m1[1], m2[1]):
             fails.append({"kind": "models", "text": progs[i], "what": "two solving runs report different answer sets"})
     # re-entrant: start another translation from inside the callback of one
     for i in order[:max(1, n // 3)]:
@@ -140,7 +140,7 @@ def _probe_chunk(args):
         cnt += 1
         oracles.impl_models(q, 2)
         m2 = oracles.impl_models(p, 2, dedup=True)
-        if m1 != m2:
+        if m1 != m2 and "Timeout" not in (m1[1], m2[1]):
             fails.append({"kind": "models-after-other-run", "text": p + "\n%%% solved again after\n" + q,
                           "what": "the answer sets of a program differ after another program was solved in the same process",
                           "first": str(m1)[:300], "again": str(m2)[:300]})
